@@ -92,7 +92,8 @@ def PTab.makeRef (t : PTab) (kind : Nat) (other : Int) : PTab × Option Nat :=
 
 /-- `vnacal_delete_parameter`: `some true` = success, `some false` = refused -/
 def PTab.delete (t : PTab) (h : Int) : PTab × Bool :=
-  if h < 3 then (t, true)
+  if h < 0 then (t, false)
+  else if h < 3 then (t, true)
   else if t.valid h then
     match t.get? h.toNat with
     | some r =>
